@@ -10,7 +10,7 @@ import vlib
 from props import rules_common as rc
 
 KEYS = ["a", "b", "ab", "B", "é", "ж", "zz", "日本", "a1", "x", "x9", "Ax", "10", "2", "9.5", "-3", "007", "a-b", "_"]
-NUMS = ["2", "10", "9.5", "-3", "0", "-0.5", "100", "7", "33.3", "-12"]
+NUMS = ["2", "10", "9.5", "-3", "-5", "-9", "-8", "0", "-0.5", "100", "7", "33.3", "-12", "-30", "15", "51"]
 
 
 def cps(s):
